@@ -34,6 +34,7 @@ import (
 	"sort"
 	"strings"
 	"sync"
+	"time"
 
 	"github.com/gobwas/httphead"
 	"github.com/gobwas/ws"
@@ -59,6 +60,7 @@ type hsShape struct {
 	HdrLen    int      // length of a filler header value (0 = none)
 	Trailing  int      // client: payload size of a frame the server sends right behind its response (-1 = none)
 	Chunks    []int    // chunk plan of the transport the handshake is read from
+	Sel       int      // shared-upgrader/shared-http: which of the case's shared selectors (SelectEqual, SelectFromSlice over 1/16/17/40 protocols)
 }
 
 type stepSpec struct {
@@ -77,6 +79,7 @@ type template struct {
 	Client bool
 	HS     hsShape
 	Steps  []stepSpec
+	TCP    bool // the case may use the loopback listener (tcp-dial steps)
 	Yield  int // layer 2: runtime.Gosched() at every Yield-th transport call (0 = never)
 }
 
@@ -119,15 +122,17 @@ var plainKinds = []string{"write-msg", "writer", "writer", "writer-fail", "ownbu
 var flateKinds = []string{"flate-send", "flate-recv", "flate-recv", "flate-bytes", "flate-writer", "flate-reader"}
 
 // drawTemplate draws the shape of a session. light = layer 2 (many sessions per case).
-func drawTemplate(t *rapid.T, light bool) template {
+func drawTemplate(t *rapid.T, light, tcp bool) template {
 	var tp template
+	tp.TCP = tcp
 	tp.Client = rapid.Bool().Draw(t, "client")
 	h := &tp.HS
 	if tp.Client {
 		h.Mode = rapid.SampledFrom([]string{"dialer", "dialer", "dialer-flate", "default", "shared-dialer"}).Draw(t, "mode")
 	} else {
-		h.Mode = rapid.SampledFrom([]string{"upgrader", "upgrader", "upgrader-flate", "default", "http", "http-flate", "http-default"}).Draw(t, "mode")
+		h.Mode = rapid.SampledFrom([]string{"upgrader", "upgrader", "upgrader-flate", "default", "http", "http-flate", "http-default", "shared-upgrader", "shared-http"}).Draw(t, "mode")
 	}
+	h.Sel = rapid.IntRange(0, len(protoLists)-1).Draw(t, "selector")
 	for i := rapid.IntRange(1, 3).Draw(t, "nproto"); i > 0; i-- {
 		h.ProtoLens = append(h.ProtoLens, rapid.IntRange(1, 12).Draw(t, "plen"))
 	}
@@ -153,6 +158,9 @@ func drawTemplate(t *rapid.T, light bool) template {
 	kinds := plainKinds
 	if tp.Client {
 		kinds = append(append([]string(nil), plainKinds...), "wss-dial")
+		if tcp {
+			kinds = append(kinds, "tcp-dial", "tcp-dial", "tcp-dial")
+		}
 	}
 	if tp.flate() {
 		kinds = append(append([]string(nil), kinds...), flateKinds...)
@@ -370,6 +378,7 @@ type session struct {
 	tr  []string
 
 	state ws.State
+	env   *sharedEnv
 	io    func() // called at every transport Read/Write of this session (nil = nothing)
 
 	hsErr  error
@@ -579,7 +588,50 @@ func (p *lazyPeer) Read(b []byte) (int, error) {
 
 // --- handshake --------------------------------------------------------------
 
+// sharedEnv holds what the sessions of ONE run share besides the package-level
+// values: upgraders whose Protocol callback was made by ws.SelectEqual /
+// ws.SelectFromSlice. It is created fresh for every run (each solo run, the
+// interleaved run, the concurrent run), so the selectors of a concurrent run
+// are used concurrently from their very first call.
+type sharedEnv struct {
+	up   []ws.Upgrader
+	http []ws.HTTPUpgrader
+}
+
+func protoList(n int) []string {
+	out := make([]string, n)
+	for i := range out {
+		out[i] = fmt.Sprintf("proto-%d-of-%d", i, n)
+	}
+	return out
+}
+
+// protoLists: index 0 is used with SelectEqual, the others with SelectFromSlice
+// (16 is the last linear-scan size, 17 the first map-backed one).
+var protoLists = [][]string{protoList(1), protoList(1), protoList(16), protoList(17), protoList(40)}
+
+func newEnv() *sharedEnv {
+	e := &sharedEnv{}
+	for i, l := range protoLists {
+		sel := ws.SelectFromSlice(l)
+		if i == 0 {
+			sel = ws.SelectEqual(l[0])
+		}
+		e.up = append(e.up, ws.Upgrader{Protocol: func(p []byte) bool { return sel(string(p)) }})
+		e.http = append(e.http, ws.HTTPUpgrader{Protocol: sel})
+	}
+	return e
+}
+
+func (s *session) sharedMode() bool {
+	return s.tpl.HS.Mode == "shared-upgrader" || s.tpl.HS.Mode == "shared-http"
+}
+
 func (s *session) protos() []string {
+	if s.sharedMode() {
+		l := protoLists[s.tpl.HS.Sel]
+		return []string{word(s.id, 100, s.tpl.HS.ProtoLens[0]), l[s.id%len(l)]}
+	}
 	var out []string
 	for i, n := range s.tpl.HS.ProtoLens {
 		out = append(out, word(s.id, 100+i, n))
@@ -644,11 +696,24 @@ func (s *session) serverHandshake() {
 	h := s.tpl.HS
 	req := s.request()
 	key := base64.StdEncoding.EncodeToString(content(s.id, 1, 16, false))
-	want := s.protos()[h.Pick]
+	ps := s.protos()
+	want := ps[h.Pick%len(ps)]
 	rec := tx.NewRec()
 	var hs ws.Handshake
 	var err error
 	switch h.Mode {
+	case "shared-upgrader":
+		want = s.protos()[1]
+		hs, err = s.env.up[h.Sel].Upgrade(tx.RW{Reader: s.src(req, h.Chunks), Writer: s.dst(rec)})
+	case "shared-http":
+		want = s.protos()[1]
+		r, perr := http.ReadRequest(bufio.NewReader(bytes.NewReader(req)))
+		if perr != nil {
+			s.expect(false, "harness: net/http does not parse the request: %v", perr)
+			s.hsErr = perr
+			return
+		}
+		_, _, hs, err = s.env.http[h.Sel].Upgrade(r, tx.NewHijackable(s.src(nil, nil), s.dst(rec), 0))
 	case "upgrader", "upgrader-flate":
 		u := ws.Upgrader{ReadBufferSize: h.BufSize, WriteBufferSize: h.BufSize}
 		u.Protocol = func(p []byte) bool { return string(p) == want }
@@ -1024,6 +1089,117 @@ func (s *session) stepOwnbufReuseFlush(o op) {
 	s.expect(err == nil && ok && bytes.Equal(got, s.ownMsg), "Writer over the session's own buffer: the wire does not carry the %d bytes written before other sessions ran", len(s.ownMsg))
 	s.ownW = nil
 	s.keepPattern(1003+o.idx*16, fmt.Sprintf("the %d-byte buffer given to NewWriterBuffer (after its second message, refilled by the session)", len(s.ownBuf)))
+}
+
+// --- real dials over loopback TCP (NetDial == nil) --------------------------------
+//
+// These are the only steps that leave the in-memory world: the Dialer's
+// default path (its package-level net.Dialer) is only reachable with a real
+// connect. A loopback listener serves ws.Upgrade on every connection. One kind
+// of session dials with Timeout = 1ns (its own outcome depends on real time and
+// is NOT recorded); the others dial with ws.Dial / ws.DefaultDialer / a Dialer
+// with a generous Timeout and no deadline that could expire, so they connect
+// however loaded the machine is — unless another session's Timeout leaked
+// into the state all dialers share.
+
+var (
+	tcpOnce   sync.Once
+	tcpAddr   string
+	tcpErr    error
+	tcpMu     sync.Mutex
+	tcpIdle   = sync.NewCond(&tcpMu)
+	tcpActive int // connections being served
+)
+
+func tcpListen() (string, error) {
+	tcpOnce.Do(func() {
+		ln, err := net.Listen("tcp", "127.0.0.1:0")
+		if err != nil {
+			tcpErr = err
+			return
+		}
+		tcpAddr = ln.Addr().String()
+		go func() {
+			for {
+				c, err := ln.Accept()
+				if err != nil {
+					return
+				}
+				tcpMu.Lock()
+				tcpActive++
+				tcpMu.Unlock()
+				go func() {
+					defer func() {
+						tcpMu.Lock()
+						tcpActive--
+						tcpIdle.Broadcast()
+						tcpMu.Unlock()
+					}()
+					ws.Upgrade(c)
+					// wait for the client to hang up, so that the client side closes first
+					io.Copy(io.Discard, c)
+					c.Close()
+				}()
+			}
+		}()
+	})
+	return tcpAddr, tcpErr
+}
+
+// tcpQuiesce waits until every connection served so far has ended (each client
+// closes its conn before its step returns).
+func tcpQuiesce() {
+	tcpMu.Lock()
+	for tcpActive > 0 {
+		tcpIdle.Wait()
+	}
+	tcpMu.Unlock()
+}
+
+func (s *session) stepTCPDial(o op) {
+	addr, lerr := tcpListen()
+	if lerr != nil {
+		s.logf("no loopback listener in this environment")
+		return
+	}
+	url := "ws://" + addr + "/" + word(s.id, 1000+o.idx*16, 5)
+	switch o.spec.Which % 4 {
+	case 0:
+		// a dialer with a connect timeout that cannot be met; what it returns is a matter of real time
+		d := ws.Dialer{Timeout: time.Nanosecond}
+		if c, br, _, err := d.Dial(context.Background(), url); err == nil {
+			if br != nil {
+				ws.PutReader(br)
+			}
+			c.Close()
+		}
+		s.logf("Dialer{Timeout: 1ns}.Dial returned (outcome not recorded)")
+		return
+	}
+	var c net.Conn
+	var br *bufio.Reader
+	var hs ws.Handshake
+	var err error
+	how := ""
+	switch o.spec.Which % 4 {
+	case 1:
+		how = "ws.Dial"
+		c, br, hs, err = ws.Dial(context.Background(), url)
+	case 2:
+		how = "ws.DefaultDialer.Dial"
+		c, br, hs, err = ws.DefaultDialer.Dial(context.Background(), url)
+	default:
+		how = "Dialer{Timeout: 1h}.Dial"
+		c, br, hs, err = ws.Dialer{Timeout: time.Hour}.Dial(context.Background(), url)
+	}
+	s.logf("%s err=%s hs={%s} br-nil=%t", how, renderErr(err), renderHS(hs), br == nil)
+	s.expect(err == nil, "%s to the loopback listener failed: %v", how, err)
+	if br != nil {
+		ws.PutReader(br)
+	}
+	if c != nil {
+		c.Close()
+	}
 }
 
 // --- writers with an extension list all sessions share ---------------------------
@@ -1956,6 +2132,8 @@ func (s *session) step() {
 			s.stepControlWriter2(o)
 		case "mask-helpers":
 			s.stepMaskHelpers(o)
+		case "tcp-dial":
+			s.stepTCPDial(o)
 		case "extw-get":
 			s.stepExtwGet(o)
 		case "extw-write":
@@ -2011,6 +2189,7 @@ func (s *session) step() {
 // runSolo runs a fresh copy of the session alone and returns its transcript.
 func runSolo(id int, tp *template) []string {
 	s := newSession(id, tp)
+	s.env = newEnv()
 	for !s.done() {
 		s.step()
 	}
